@@ -270,6 +270,9 @@ impl Prop for C01 {
             o
         });
     }
+    fn fuzz_strategy(&self) -> Option<BoxedStrategy<Value>> {
+        Some(crate::fuzzmode::jv(case_strategy(25, 2)))
+    }
     fn replay(&self, _ctx: &Ctx, case: &Value) -> Obs {
         match serde_json::from_value::<Case>(case.clone()) {
             Ok(c) => judge_case(&c),
